@@ -213,11 +213,19 @@ func runCase(fail func(string, ...any), d *setupData, mode string, k kindDef, s 
 			if fp1 != fpT1 {
 				out.viol = append(out.viol, "neutral-effect-differs-from-twin: "+firstDiff(fp1, fpT1))
 			}
-		} else if !r.OK() && out.changed != "" {
-			out.viol = append(out.viol, "state-changed-by-failed-statement: "+out.changed)
+		} else if isReadOnlyRejection(r.Err) && out.changed != "" {
+			// the only thing the statement says about a statement of undecided kind: if it is
+			// rejected because of the read-only mode, then before it takes effect (whether any
+			// other failing statement is atomic is not a matter of this property)
+			out.viol = append(out.viol, "state-changed-by-rejected-statement: "+out.changed)
 		}
 	}
 	return out
+}
+
+// isReadOnlyRejection: the error kinds with which the three modes reject a statement.
+func isReadOnlyRejection(err error) bool {
+	return err != nil && (sql.ErrReadOnly.Is(err) || sql.ErrReadOnlyTransaction.Is(err) || analyzererrors.ErrReadOnlyDatabase.Is(err))
 }
 
 func (o *outcome) describe() string {
@@ -279,15 +287,13 @@ type finding struct {
 	witness func(fail func(string, ...any)) *outcome
 }
 
-var rotxUncheckedFamilies = map[string]bool{"call": true, "acct": true, "stats": true}
-
 // kinds that pass validateReadOnlyDatabase although they change d (see notes/C42.md)
 var rodbHoleKinds = map[string]bool{
 	"drop-database-d": true, "alter-database-d": true, "rename-table": true, "x-rename-out-of-d": true,
 	"alter-auto-increment": true, "alter-default": true, "alter-comment": true, "alter-collate": true,
 	"add-foreign-key": true, "drop-foreign-key": true, "create-view": true, "drop-view": true,
 	"create-procedure": true, "drop-procedure": true, "drop-trigger": true, "drop-event": true,
-	"alter-event": true, "update-histogram": true, "drop-histogram": true, "drop-check": true,
+	"alter-event": true,
 }
 
 func isRodbCommitErr(r *fx.Result) bool {
@@ -331,26 +337,16 @@ func findings() []finding {
 			},
 		},
 		{
-			// validateReadOnlyTransaction declares every DDL node valid ("implicit commit")
-			id: "C42-rotx-ddl",
+			// buildCall runs the body of a procedure with the session's transaction set aside
+			// (ctx.SetTransaction(nil)), so the statements of the body start a new read-write
+			// transaction and are never seen by validateReadOnlyTransaction
+			id: "C42-rotx-call-writer",
 			sig: func(o *outcome) bool {
-				return o.mode == modeROTx && o.label == lblWriter && o.kind.family == "ddl" && o.res != nil && o.res.OK() &&
-					onlyViol(o, "writer-not-rejected", "state-changed")
-			},
-			region: func(mode string, k kindDef) bool { return mode == modeROTx && k.family == "ddl" },
-			witness: func(fail func(string, ...any)) *outcome {
-				return witnessCase(fail, modeROTx, "truncate", "TRUNCATE TABLE u", opts{})
-			},
-		},
-		{
-			// validateReadOnlyTransaction only looks at INSERT/UPDATE/DELETE/LOCK TABLES/CREATE TABLE
-			id: "C42-rotx-unchecked",
-			sig: func(o *outcome) bool {
-				return o.mode == modeROTx && o.label == lblWriter && rotxUncheckedFamilies[o.kind.family] && o.res != nil && o.res.OK() &&
+				return o.mode == modeROTx && o.label == lblWriter && o.kind.family == "call" && o.res != nil && o.res.OK() &&
 					onlyViol(o, "writer-not-rejected", "state-changed")
 			},
 			region: func(mode string, k kindDef) bool {
-				return mode == modeROTx && rotxUncheckedFamilies[k.family] && k.label == lblWriter
+				return mode == modeROTx && k.family == "call" && k.label == lblWriter
 			},
 			witness: func(fail func(string, ...any)) *outcome {
 				return witnessCase(fail, modeROTx, "call-writer", "CALL pw()", opts{})
